@@ -40,12 +40,12 @@ from gens import limitfacts
 from props import c10
 
 ID = 'C09'
-LEAN_MODULES = ['Yaql.Props.C09', 'Yaql.Props.C09Ctx', 'Yaql.Props.C09Gen']
+LEAN_MODULES = ['Yaql.Props.C09', 'Yaql.Props.C09Ctx', 'Yaql.Props.C09Eval', 'Yaql.Props.C09Gen']
 REQUIRED_THEOREMS = ['Yaql.Props.C09.' + n for n in (
     'convert_input_fresh', 'convert_output_fresh', 'convert_output_no_alias_with_conversion_off',
     'output_conversion_off_aliases', 'convInI_erase', 'convOutI_erase',
     'frame', 'discipline_fresh', 'context_frame', 'only_dollar', 'only_dollar_reads', 'dollar_bound',
-    'reeval', 'reeval_pool', 'context_clause_partial')] + ['Yaql.Props.C09Gen.no_param_mutation', 'Yaql.Props.C09Gen.table_nonvacuous']
+    'reeval', 'reeval_pool', 'context_clause_partial', 'eval_C09_full', 'eval_reeval_pool')] + ['Yaql.Props.C09Gen.no_param_mutation', 'Yaql.Props.C09Gen.table_nonvacuous']
 TRUSTED = ['harness/gens/mutfacts.py: the AST scan that classifies in-place updates / attribute stores / global writes '
            'per payload parameter (labels, aliasing rules, copy constructors); cross-checked by the dynamic sweep',
            'the snapshot / identity walkers of harness/props/c09.py',
@@ -54,8 +54,8 @@ ASSUMPTIONS = ['aliasing is modelled with allocation identities carried by conta
                'converters are pure functions of their argument in the model (absence of writes in the real code is '
                'C09Gen.no_param_mutation + the dynamic snapshot oracle)',
                'the evaluator is abstracted to its sequence of context-API calls; Disciplined / Local are hypotheses '
-               'of only_dollar / reeval_pool, checked dynamically on traces of the real evaluator until Model/Eval.lean '
-               'is connected',
+               'of only_dollar / reeval_pool; for the C04 evaluator model (immutable frame chains) they are proved '
+               '(eval_C09_full) under C04\'s representation argument; the real evaluator\'s traces are checked dynamically',
                'host documents are lists / dicts / sets (tuples, scalars) - the property\'s quantifier; generators, '
                'frozensets and dict views are wrapped lazily by convert_input_data (modelled, '
                'convert_input_lazy_holds_source) and are outside the no-alias claim',
@@ -1574,7 +1574,8 @@ LEVEL_TEXT = ('Lean 4 theorems over (1) a model of utils.convert_input_data / co
               'result; reuse against a fresh parse) runs around every evaluation of a sweep over every registered function '
               'x every position admitting a raw list / dict / set, nested shapes, both input-conversion modes.')
 LEVEL_NOTE = ('partial: aliasing is modelled with allocation identities, not a heap; the evaluator\'s discipline and locality '
-              'are hypotheses (to be discharged by Model/Eval.lean after merge), checked on real traces meanwhile; the AST '
+              'are hypotheses of the store-level theorems, discharged for the C04 evaluator model (Props/C09Eval.lean, whose '
+              'contexts are immutable frame chains) and checked on traces of the real evaluator; the AST '
               'scan of harness/gens/mutfacts.py is trusted and does not follow values stored into yaql objects by '
               'constructors (OrderingIterable) - those are covered by the dynamic sweep only')
 TECHNIQUE = ('Lean 4 proof (mutual structural induction over Python objects with identities; induction over step sequences '
